@@ -302,7 +302,7 @@ func (r *testResults) report(printer internal.Printer) bool {
 	if expectedFailures > 0 {
 		printer.Printf("(Another %d failed as expected due to being known failures/flakes.)", expectedFailures)
 	}
-	return failed == 0
+	return failed == 0 && couldNotRun == 0
 }
 
 type testOutcome struct {
